@@ -11,7 +11,7 @@ base=${BASE:-HEAD}
 git -C /repo worktree add -q --detach "$wt" "$base" || exit 2
 if ! git -C "$wt" apply --check "$out/patch.diff" 2>/dev/null; then
   # the seed was written against an earlier tree: fall back to the tree of round 4 / rounds 1-2 (before later fix commits)
-  for fb in eb5f681 6c019d0 151f69a e019c9f^; do
+  for fb in 8fca275 eb5f681 6c019d0 151f69a e019c9f^; do
     git -C /repo worktree remove --force "$wt"; base=$fb; git -C /repo worktree add -q --detach "$wt" "$base" || exit 2
     git -C "$wt" apply --check "$out/patch.diff" 2>/dev/null && break
   done
